@@ -1,6 +1,6 @@
 """C15  Combination unranking is a bijection: sampled triples are distinct and complete.
 
-Three parts, all on the real ``batchie.scoring.gaussian_dbal`` code:
+Four parts, all on the real ``batchie.scoring.gaussian_dbal`` code:
 
 * ``full``    every index 0..C(n,k)-1 for every small (n, k): the produced sequence must be
               exactly ``sorted(descending tuples of itertools.combinations(range(n), k))``.
@@ -45,9 +45,9 @@ RULE = (
     "cases = every (n, k, index) with 0 <= index < C(n,k) inside the bounds, unranked by the real "
     "get_combination_at_sorted_index, plus every (n_thetas, budget, ordered answer of rng.choice) of the scoring "
     "kernel; an unranking is non-trivial when the result is not the maximal tuple (the inner loop of the "
-    "incremental arithmetic ran at least once), distinct class = (n, k, leading element, second element); a "
+    "incremental arithmetic ran at least once), distinct class = (n, k, leading element, and the second element when k >= 3); a "
     "scoring run is non-trivial when >= 2 triples are drawn, distinct class = (n, budget, answer); outcome = "
-    "(k, leading two elements) of the tuple resp. the recorded list of triples"
+    "(k, leading element[, second element when k >= 3]) of the tuple resp. the recorded list of triples"
 )
 
 QUICK_FULL_N = 40
@@ -160,10 +160,15 @@ def call_unrank(index, n, k):
     return getattr(G, UNRANK)(index, n, k)
 
 
+def _key(got, k):
+    """Class of a tuple: its leading element, plus the second one when k >= 3."""
+    return tuple(got[:2]) if k >= 3 else tuple(got[:1])
+
+
 def _note(col, n, k, got):
     if k >= 1 and tuple(got) != tuple(range(n - 1, n - 1 - k, -1)):
-        col.nontriv(n, k, got[0], got[1] if k > 1 else -1)
-    col.outcome(k, tuple(got[:2]))
+        col.nontriv(n, k, _key(got, k))
+    col.outcome(k, _key(got, k))
 
 
 def _violate(col, n, k, index, verdict):
@@ -222,7 +227,7 @@ def run_full(col, n, k):
     if got == expected:
         seen2 = set()
         for t in expected:
-            key = t[:2]
+            key = _key(t, k)
             if key not in seen2:
                 seen2.add(key)
                 _note(col, n, k, t)
@@ -256,6 +261,7 @@ def run_stream(col, n, k, lo, hi):
     exp = ref_unrank(lo, n, k)
     assert ref_rank(exp) == lo
     reported = 0
+    last_key = None
     for index in range(lo, hi):
         try:
             got = fn(index, n, k)
@@ -268,7 +274,8 @@ def run_stream(col, n, k, lo, hi):
                 col.evaluations -= 1
                 col.states -= 1
                 col.transitions -= 1
-        elif index % 4096 == 0 or index == hi - 1:
+        elif _key(got, k) != last_key:
+            last_key = _key(got, k)
             _note(col, n, k, got)
         nxt = ref_successor(exp, n)
         if nxt is None:
@@ -392,9 +399,15 @@ def judge_scoring(col, n, budget, choices, rec, exc):
             col.refused += 1
             col.outcome("refused", n)
             return
+        if budget < total:
+            # "whenever it returns": nothing is said about a kernel that raises below a covering budget
+            col.refused += 1
+            col.outcome("refused", n, budget)
+            return
         col.violation(
-            f"{PROP}|scoring|raised",
-            f"scoring kernel raised with n_thetas={n}, max_combos={budget}: {short_exc(exc)}",
+            f"{PROP}|scoring|raised-with-covering-budget",
+            f"scoring kernel raised with n_thetas={n}, max_combos={budget} >= C(n,3)={total}, where all triples must be "
+            f"used: {short_exc(exc)}",
             case,
         )
         return
